@@ -18,10 +18,10 @@ type Sx struct {
 	IsL  bool
 }
 
-func A(s string) *Sx        { return &Sx{Atom: s} }
-func N(v uint64) *Sx        { return &Sx{Atom: strconv.FormatUint(v, 10)} }
-func X(b []byte) *Sx        { return &Sx{Atom: "x" + hex.EncodeToString(b)} }
-func L(items ...*Sx) *Sx    { return &Sx{IsL: true, List: items} }
+func A(s string) *Sx     { return &Sx{Atom: s} }
+func N(v uint64) *Sx     { return &Sx{Atom: strconv.FormatUint(v, 10)} }
+func X(b []byte) *Sx     { return &Sx{Atom: "x" + hex.EncodeToString(b)} }
+func L(items ...*Sx) *Sx { return &Sx{IsL: true, List: items} }
 func Bl(b bool) *Sx {
 	if b {
 		return A("1")
